@@ -198,7 +198,8 @@ PROPS["C07"] = dict(
     rule="one evaluation = one seeded run of a 1/3/5-node cluster: 2-5 clients send 12-60 single- and multi-key commands (unique values) to "
          "tape-chosen nodes while the tape schedules every message delivery, raft tick and client step and the adversary injects message "
          "drop/reorder/delay, partitions (symmetric, asymmetric, leader isolated) and heals, slow nodes, crash-restart of a minority at "
-         "quiescence or at a sync/send/reply seam, rconf add/delete; then everything is healed and restarted, every node must answer a fresh "
+         "quiescence or at a sync/send/reply seam, rconf add/delete (35 % of the crash configurations are the directed ack-then-crash / "
+         "vote-then-crash choreographies described under C08); then everything is healed and restarted, every node must answer a fresh "
          "command within 60 simulated seconds and every key is read back on every node; oracles = porcupine over the client history against "
          "the reference model (unanswered commands stay pending), equal keyspace dumps for equal applied index after every step and at the "
          "end, no node death; non-trivial = at least two clients answered and (unless the fault-free configuration) at least one fault fired; "
@@ -219,7 +220,12 @@ PROPS["C08"] = dict(
     rule="one evaluation = one seeded run as C07 with the shadow disk in charge: snapshot threshold 5-200 so that the log outgrows it several "
          "times, crashes of any subset of nodes including all at once, at quiescence or at the k-th sync/send/reply seam crossing, crash image = "
          "fsynced bytes plus a tape-chosen subset of unsynced sectors, restarts in any order from the node's own image; configurations: "
-         "fault-free, clean kill-all-and-restart after the workload, crashes, crashes plus network faults (separate runs); oracle = after repair every "
+         "fault-free, clean kill-all-and-restart after the workload, crashes, crashes plus network faults (separate runs); 40 % of the crash "
+         "configurations are choreographed by a directed adversary whose choices come from the tape: ack-then-crash (cut the other follower off, "
+         "kill follower F at the before-sync seam of the Ready that answers the next append, lose its unsynced sectors, wait for the client "
+         "acknowledgement, isolate/kill the leader, restart F and let the quorum without the leader serve, then heal) and vote-then-crash (kill "
+         "the swing voter between answering MsgVote and persisting the vote, restart it, let the cut-off second candidate ask in the same term); "
+         "oracle = after repair every "
          "acknowledged SET must be visible in the read-back of every node (latest acknowledged or a later in-flight write), the whole history "
          "incl. read-backs must be linearizable, no node may die taking/applying a snapshot or fail to restart from its own image; "
          "non-trivial = at least 5 commands acknowledged and (unless fault-free) at least one restart; distinct = distinct trace hash",
